@@ -245,17 +245,7 @@ func (r *runner) finish(family string, index int, settled bool, pr probes) *resu
 	r.settle()
 	res := &result{Family: family, Index: index, Cfg: w.cfg, Settled: settled}
 	if r.incon == "" {
-		a1 := w.alive()
-		if len(a1) > 0 {
-			n1 := len(w.events())
-			r.settle()
-			a2 := w.alive()
-			if r.incon == "" && len(w.events()) == n1 && len(a2) == len(a1) {
-				res.Stranded = a2
-			} else if r.incon == "" && len(a2) > 0 {
-				r.incon = "world did not quiesce after drain"
-			}
-		}
+		res.Stranded = r.strandedInEngine()
 	}
 	if r.incon == "" && res.Stranded == nil {
 		if pr.LateRes {
@@ -272,8 +262,8 @@ func (r *runner) finish(family string, index int, settled bool, pr probes) *resu
 			r.started[last] = true
 			w.start(last)
 			r.settle()
-			if a := w.alive(); len(a) > 0 && r.incon == "" {
-				res.Stranded = a
+			if r.incon == "" {
+				res.Stranded = r.strandedInEngine()
 			}
 		}
 	}
@@ -293,6 +283,55 @@ func (r *runner) finish(family string, index int, settled bool, pr probes) *resu
 	}
 	w.mu.Unlock()
 	return res
+}
+
+// strandedInEngine returns the world goroutines that are still alive after the
+// drain AND parked inside the rpc engine (their stack has a gotd/td/rpc frame),
+// seen unchanged in two consecutive settled dumps with no event in between. A
+// goroutine that is alive but not inside the engine (finishing in harness code,
+// waiting for a harness mutex) is transient: the dump is retried, and if it never
+// goes away the run is inconclusive — never a stranded verdict.
+func (r *runner) strandedInEngine() map[string]string {
+	w := r.w
+	var prev map[string]string
+	prevEvents := -1
+	for try := 0; try < 400; try++ {
+		r.settle()
+		if r.incon != "" {
+			return nil
+		}
+		a := w.alive()
+		if len(a) == 0 {
+			return nil
+		}
+		n := len(w.events())
+		allInEngine := true
+		for _, st := range a {
+			if topEngineFrame(st) == "?" {
+				allInEngine = false
+				break
+			}
+		}
+		if allInEngine && prev != nil && n == prevEvents && len(prev) == len(a) {
+			same := true
+			for k := range a {
+				if _, ok := prev[k]; !ok {
+					same = false
+				}
+			}
+			if same {
+				return a
+			}
+		}
+		if allInEngine {
+			prev, prevEvents = a, n
+		} else {
+			prev, prevEvents = nil, -1
+			time.Sleep(time.Millisecond)
+		}
+	}
+	r.incon = "world goroutines outside the engine did not exit after the drain"
+	return nil
 }
 
 // chooser picks the next action (-1 ends the schedule).
